@@ -33,6 +33,11 @@ type escrowMonitor struct {
 	knownRate          int
 	escrowBefore       math.Int
 	claimedOf          map[uint64]math.Int // dispute id -> voter rewards paid out so far
+	escrowSeen         map[string]math.Int // dispute hash -> recorded escrow total (previous block)
+	fromStakeSeen      map[string]math.Int // dispute hash -> recorded fee-from-stake total (previous block)
+	escrowShort        map[string]math.Int // dispute hash -> amount recorded as taken from stake but never moved into the dispute account
+	knownShort         int
+	shortEver          math.Int // sum of all such shortfalls so far (settled disputes keep their gap: it is paid out of the other disputes' funds)
 	potChecks          int
 }
 
@@ -138,6 +143,68 @@ func (m *escrowMonitor) after2(c *Chain, br *BlockResult, outs []TxOutcome, tags
 		owedTotal = owedTotal.Add(a.owed)
 	}
 	disputeBal := moduleBal(c, disputetypes.ModuleName)
+	// what the stake records say was taken in this block vs. what the staking pools actually sent to the dispute account
+	// (bank events of the block's transactions; escrow and fee-from-stake happen in ProposeDispute/AddFeeToDispute only)
+	if m.escrowSeen == nil {
+		m.escrowSeen, m.fromStakeSeen, m.escrowShort = map[string]math.Int{}, map[string]math.Int{}, map[string]math.Int{}
+	}
+	recordedIn := math.ZeroInt()
+	var newHashes []string
+	escrowNow, fromStakeNow := map[string]math.Int{}, map[string]math.Int{}
+	_ = c.App.ReporterKeeper.DisputedDelegationAmounts.Walk(ctx, nil, func(k []byte, da reportertypes.DelegationsAmounts) (bool, error) {
+		escrowNow[string(k)] = da.Total
+		if _, ok := m.escrowSeen[string(k)]; !ok {
+			recordedIn = recordedIn.Add(da.Total)
+			newHashes = append(newHashes, string(k))
+		}
+		return false, nil
+	})
+	_ = c.App.ReporterKeeper.FeePaidFromStake.Walk(ctx, nil, func(k []byte, da reportertypes.DelegationsAmounts) (bool, error) {
+		fromStakeNow[string(k)] = da.Total
+		prev, ok := m.fromStakeSeen[string(k)]
+		if !ok {
+			prev = math.ZeroInt()
+		}
+		if da.Total.GT(prev) {
+			recordedIn = recordedIn.Add(da.Total.Sub(prev))
+		}
+		return false, nil
+	})
+	m.escrowSeen, m.fromStakeSeen = escrowNow, fromStakeNow
+	movedIn := math.ZeroInt()
+	disputeAcc := authtypes.NewModuleAddress(disputetypes.ModuleName).String()
+	bondedAcc, notBondedAcc := authtypes.NewModuleAddress("bonded_tokens_pool").String(), authtypes.NewModuleAddress("not_bonded_tokens_pool").String()
+	for _, o := range outs {
+		if !o.OK() {
+			continue
+		}
+		moves, _ := c13ParseMoves(o.Res.Events)
+		for _, mv := range moves {
+			if mv.to == disputeAcc && (mv.from == bondedAcc || mv.from == notBondedAcc) {
+				movedIn = movedIn.Add(math.NewIntFromBigInt(mv.amt))
+			}
+		}
+	}
+	if short := recordedIn.Sub(movedIn); short.IsPositive() && len(newHashes) > 0 {
+		for _, hsh := range newHashes { // cannot be told apart within one block: attributed to every escrow record created in it
+			m.escrowShort[hsh] = short
+		}
+		if m.shortEver.IsNil() {
+			m.shortEver = math.ZeroInt()
+		}
+		m.shortEver = m.shortEver.Add(short)
+	}
+	if m.shortEver.IsNil() {
+		m.shortEver = math.ZeroInt()
+	}
+	shortOpen := math.ZeroInt()
+	for hsh, a := range latest {
+		if a.owed.IsPositive() {
+			if sh, ok := m.escrowShort[hsh]; ok {
+				shortOpen = shortOpen.Add(sh)
+			}
+		}
+	}
 	for _, o := range outs {
 		if o.OK() && (o.Tx.Op.K == OpPropose || o.Tx.Op.K == OpAddFee) {
 			if fb, ok := o.Tx.Note["frombond"].(bool); ok && fb {
@@ -153,6 +220,21 @@ func (m *escrowMonitor) after2(c *Chain, br *BlockResult, outs []TxOutcome, tags
 			return pbt.Violf(sig, "block %d: dispute account holds %s but unsettled disputes account for %s in fees and escrowed stake (%d fee payments from stake so far)", br.Height, disputeBal, owedTotal, m.fromBondPayments)
 		}
 		m.knownRounding++
+	} else if disputeBal.LT(owedTotal) && shortOpen.IsPositive() && disputeBal.Add(shortOpen).Add(math.NewInt(100*m.fromBondPayments)).GTE(owedTotal) {
+		// the escrow record of an open dispute says more was taken from the reporter's stake than the staking pools sent
+		// (EscrowReporterStake records the requested amount even when the stake, or the chase after a redelegation, held less)
+		sig := "C04/dispute-account-underfunded/escrow-record-exceeds-taken"
+		if !pbt.IsKnown("C04", sig) {
+			return pbt.Violf(sig, "block %d: dispute account holds %s but unsettled disputes account for %s in fees and escrowed stake; the stake records of open disputes claim %s more than the staking pools sent to the dispute account", br.Height, disputeBal, owedTotal, shortOpen)
+		}
+		m.knownShort++
+	} else if disputeBal.LT(owedTotal) && m.shortEver.IsPositive() && disputeBal.Add(m.shortEver).Add(math.NewInt(100*m.fromBondPayments)).GTE(owedTotal) {
+		// consequence of the same defect: a dispute with such a gap was settled in full, at the expense of the others
+		sig := "C04/dispute-account-underfunded/after-settled-escrow-shortfall"
+		if !pbt.IsKnown("C04", sig) {
+			return pbt.Violf(sig, "block %d: dispute account holds %s but unsettled disputes account for %s in fees and escrowed stake; earlier disputes, settled since, had recorded %s more escrowed stake than was taken", br.Height, disputeBal, owedTotal, m.shortEver)
+		}
+		m.knownShort++
 	} else if disputeBal.LT(owedTotal) {
 		return pbt.Violf("C04/dispute-account-underfunded/"+tags, "block %d: dispute account holds %s but unsettled disputes account for %s in fees and escrowed stake", br.Height, disputeBal, owedTotal)
 	}
@@ -177,6 +259,14 @@ func (m *escrowMonitor) after2(c *Chain, br *BlockResult, outs []TxOutcome, tags
 				if o.Tx.Op.K != OpWithdrawTip && m.fromBondPayments > 0 && need > have && need-have <= 100*m.fromBondPayments &&
 					pbt.IsKnown("C04", "C04/dispute-account-underfunded/fee-from-stake-rounding") {
 					m.knownRounding++
+					continue
+				}
+				if o.Tx.Op.K != OpWithdrawTip && m.shortEver.IsPositive() && need > have && math.NewInt(need-have).LTE(m.shortEver.Add(math.NewInt(100*m.fromBondPayments))) {
+					sig := "C04/claim-failed-insufficient-funds/" + o.Tx.Op.K + "/after-escrow-shortfall"
+					if !pbt.IsKnown("C04", sig) {
+						return pbt.Violf(sig, "block %d: %s failed for lack of funds (%s); disputes had recorded %s more escrowed stake than was taken", br.Height, o.Tx.Op.K, o.Res.Log, m.shortEver)
+					}
+					m.knownShort++
 					continue
 				}
 				return pbt.Violf("C04/claim-failed-insufficient-funds/"+o.Tx.Op.K, "block %d: %s failed for lack of funds: %s", br.Height, o.Tx.Op.K, o.Res.Log)
